@@ -1,10 +1,16 @@
 (* C02 — property theorems only (proved in C02/Proofs*.v), instantiated with the memory
-   orders and the flag -> mode table re-extracted from the code on this run (gen/Params_C02.v). *)
-From MV Require Import C02.Model gen.Params_C02.
+   orders and the flag -> mode table re-extracted from the code on this run (gen/Params_C02.v).
+   Conventions: a scenario c (cfg) has capacity 2^(c_k c), c_nw writers, c_nr readers, c_pre
+   messages written before the threads start; written = (s_nw, s_wr), appended at the cursor
+   store; reader t's k-th result is t_got k, its 32-bit index register t_idx; the documented
+   no-lapping precondition (writes begun < next reader index + capacity, at every slot store)
+   is the ghost monitor s_lapped = false. *)
+From MV Require Import C02.Model C02.ProofsBase C02.ProofsCtl C02.ProofsFun C02.ProofsFunStep
+  C02.ProofsTop C02.ProofsEx C02.ProofsView C02.ProofsViewStep C02.ProofsVis gen.Params_C02.
 Local Open Scope Z_scope.
 
 (* the flag -> mode decision of muggle_ring_buffer_get_mode, as computed by the code on this run,
-   is the model's for all 32 flag values *)
+   is the model's for all 32 flag values (accepted combinations and the rejected one) *)
 Theorem rb_mode_table_matches :
   forallb (fun r => match r with (f, rc, wm, rm) =>
     match get_mode f with
@@ -13,3 +19,84 @@ Theorem rb_mode_table_matches :
     end end) code_mode_table = true /\ length code_mode_table = 32%nat.
 Proof. vm_compute. split; reflexivity. Qed.
 Print Assumptions rb_mode_table_matches.
+
+(* for every schedule, any number of writers and readers, any power-of-two capacity: under the
+   no-lapping precondition the k-th read of a waiting / busy reader (logical index pre + k)
+   returned the (pre + k)-th element of written, and that element existed *)
+Theorem rb_read_returns_ith : forall c sched t k, wf_cfg c -> c_rm c <> ROnce ->
+  let s := exec sys (step code_params) (init c) sched in
+  s_lapped s = false -> 0 <= k < t_cnt (s_thr s t) ->
+  t_got (s_thr s t) k = s_wr s (c_pre c + k) /\ c_pre c + k < s_nw s.
+Proof. exact (rb_read_returns_ith_all code_params). Qed.
+Print Assumptions rb_read_returns_ith.
+
+(* all readers see the same order *)
+Theorem rb_readers_agree : forall c sched t u k, wf_cfg c -> c_rm c <> ROnce ->
+  let s := exec sys (step code_params) (init c) sched in
+  s_lapped s = false -> 0 <= k < t_cnt (s_thr s t) -> 0 <= k < t_cnt (s_thr s u) ->
+  t_got (s_thr s t) k = t_got (s_thr s u) k.
+Proof. exact (rb_readers_agree_all code_params). Qed.
+Print Assumptions rb_readers_agree.
+
+(* wrap of the 32-bit reader index is harmless: the ring position depends on the index only
+   modulo the capacity, which divides 2^32; the register is (first index + reads) mod 2^32 in
+   every reachable state; and rb_read_returns_ith holds for every first index (wf_cfg only asks
+   for first index = pre modulo the capacity), in particular 2^32-3 (Example rb_nonvacuous) *)
+Theorem rb_idx_wrap : forall c,
+  (c_k c <= 32)%nat ->
+  (exists q, two32 = q * cap c) /\
+  (forall i, (i mod two32) mod cap c = i mod cap c) /\
+  (forall sched t, wf_cfg c -> is_reader c t = true ->
+     let s := exec sys (step code_params) (init c) sched in
+     t_idx (s_thr s t) = (c_idx0 c t + t_cnt (s_thr s t)) mod two32).
+Proof.
+  intros c Hk. split; [apply cap_divides; exact Hk|]. split; [intros i; apply idx_wrap_mod; exact Hk|].
+  intros sched t Hwf Hr. exact (rb_idx_register_all code_params c sched t Hwf Hr).
+Qed.
+Print Assumptions rb_idx_wrap.
+
+(* read-once mode: the takes in read-mutex order (s_once, s_nt) are a prefix of written - no
+   loss, no duplication, in write order - and every result returned to a reader is the take
+   recorded for that reader at one position of that order *)
+Theorem rb_once_exactly_once : forall c sched, wf_cfg c -> c_rm c = ROnce ->
+  let s := exec sys (step code_params) (init c) sched in
+  s_lapped s = false ->
+  0 <= s_nt s <= s_nw s /\ (forall n, 0 <= n < s_nt s -> s_once s n = s_wr s n) /\
+  (forall t k, 0 <= k < t_cnt (s_thr s t) ->
+     let n := t_gotn (s_thr s t) k in
+     0 <= n < s_nt s /\ t_got (s_thr s t) k = s_once s n /\ s_who s n = t).
+Proof. exact (rb_once_prefix_all code_params). Qed.
+Print Assumptions rb_once_exactly_once.
+
+(* A.6: the cursor is the number of published messages modulo the capacity; mutual exclusion
+   of the write side and of the read mutex (control invariant) for every schedule *)
+Theorem rb_cursor_and_exclusion : forall c sched, wf_cfg c ->
+  let s := exec sys (step code_params) (init c) sched in
+  AInv c s /\ (s_lapped s = false -> s_cursor s = s_nw s mod cap c).
+Proof.
+  intros c sched Hwf s. split; [exact (ctl_invariants code_params c Hwf sched)|].
+  exact (rb_cursor_all code_params c sched Hwf).
+Qed.
+Print Assumptions rb_cursor_and_exclusion.
+
+(* side condition on the memory orders the code passes (re-extracted on this run): acquire on
+   test_and_set and on the three cursor loads, release on clear and on the two cursor stores *)
+Theorem c02_memory_orders_sufficient : mo_sufficient code_params = true.
+Proof. vm_compute. reflexivity. Qed.
+Print Assumptions c02_memory_orders_sufficient.
+
+(* FULL STATEMENT (rb_payload_visible): for every scenario and schedule, under the no-lapping
+   precondition, s_uncov = 0: every plain read of a slot, of a payload and of read_cursor by a
+   reader is covered by the reader's view (what the producer stored before the write is visible
+   to every reader that receives the message).
+   PROVED PART: reader modes wait / single-wait / busy-loop (c_rm c <> ROnce), locked and single
+   writers.  NOT PROVED: read-once mode (read_cursor under read_mutex, slot and payload read in
+   muggle_ring_buffer_read_once); there the uncovered-read monitor of the model is checked on
+   every accepted trace and by model exploration when the parameter obligation breaks. *)
+Theorem rb_payload_visible_partial : forall c sched, wf_cfg c -> c_rm c <> ROnce ->
+  let s := exec sys (step code_params) (init c) sched in
+  s_lapped s = false -> s_uncov s = 0%nat.
+Proof.
+  intros c sched Hwf Hm. exact (rb_payload_visible_waitbusy code_params c sched Hwf c02_memory_orders_sufficient Hm).
+Qed.
+Print Assumptions rb_payload_visible_partial.
